@@ -200,6 +200,8 @@ PROPS['C08'] = dict(
     level_note='Partial: panic sites classified unverified are listed in the evidence and not proved; grammar invariants (each node has a contiguous leaf, identifier present) are preconditions discharged by gvc.faithful rules, not by Verus; stack exhaustion by nesting is outside the claim; a new unclassified panic site makes the run undecided.',
     not_covered=['Display/Debug of SyntaxTree', 'identifier() &x[1..]', 'RefCell borrows of the thread-locals', 'the nom parsers themselves (no panics assumed in nom)'],
 )
+KANI = dict(module='vx.kanieng', tier='thorough')
+PROPS['C03']['engines'] = [KANI]
 PROPS['C18']['engines'] = [REPLAY]
 PROPS['C04']['engines'] = [REPLAY]
 PROPS['C06']['engines'] = [REPLAY]
